@@ -444,3 +444,5 @@ RULE += (' Added: long sessions - string-taking entry points (format_context, fo
          'get_recursively, str_to_dict, UpdateContext, SetContext alone and in a Sequence, '
          'MakeFilename, Variable) called thousands of times with a distinct string each time in '
          'one interpreter.')
+RULE += (' Added: Cache.drop_cache over something that exists where the cache should be and cannot '
+         'be removed as a file (documented LenaEnvironmentError).')
